@@ -311,7 +311,9 @@ def write_accel(path, acc_name, variant, repo=None):
         if acc_name == "cg":
             git(["commit-graph", "write", "--reachable"], cwd=path)
         elif acc_name == "midx":
-            git(["multi-pack-index", "write"], cwd=path)
+            pd = os.path.join(path, "objects", "pack")
+            if os.path.isdir(pd) and any(f.endswith(".pack") for f in os.listdir(pd)):
+                git(["multi-pack-index", "write"], cwd=path)  # (git refuses when there is no pack)
         elif acc_name == "bitmap":
             git(["-c", "pack.writeBitmapHashCache=true", "-c", "pack.writeBitmapLookupTable=true",
                  "repack", "-a", "-d", "-b", "-q"], cwd=path)
@@ -367,8 +369,8 @@ def _moveref_target(h: Hist):
     return h.commits[ps[0]].id if ps else None
 
 
-def apply_step(h: Hist, step, path, refs_model):
-    """Run one continuation step with a fresh Repo object; updates refs_model (dict) in place."""
+def apply_step(h: Hist, step, path):
+    """Run one continuation step with a fresh Repo object (the refs model is model_state())."""
     from dulwich.gc import garbage_collect
 
     last = b"refs/heads/b%d" % (h.n - 1)
@@ -381,11 +383,9 @@ def apply_step(h: Hist, step, path, refs_model):
             for o in _xsub(h):
                 st.add_object(o)
             r.refs[last] = h.x.id
-            refs_model[last] = h.x.id
         elif step == "pack":
             st.add_objects([(o, None) for o in [h.xblob, h.xtree, h.x] + _xsub(h)])
             r.refs[last] = h.x.id
-            refs_model[last] = h.x.id
         elif step == "repack":
             st.repack()
         elif step == "pack-loose":
@@ -395,31 +395,27 @@ def apply_step(h: Hist, step, path, refs_model):
         elif step in ("delref", "delref+gc"):
             del r.refs[last]
             del r.refs[b"refs/tags/l"]
-            refs_model.pop(last)
-            refs_model.pop(b"refs/tags/l")
             if step.endswith("+gc"):
                 garbage_collect(r, grace_period=None)
         elif step in ("moveref", "moveref+gc"):
             tgt = _moveref_target(h)
             del r.refs[b"refs/tags/l"]
-            refs_model.pop(b"refs/tags/l")
             if tgt is None:
                 del r.refs[last]
-                refs_model.pop(last)
             else:
                 r.refs[last] = tgt
-                refs_model[last] = tgt
             if step.endswith("+gc"):
                 garbage_collect(r, grace_period=None)
         elif step == "retag":
             st.add_object(h.tag2)
             r.refs[b"refs/tags/t"] = h.tag2.id
-            refs_model[b"refs/tags/t"] = h.tag2.id
         elif step == "deltag+gc":
             del r.refs[b"refs/tags/t"]
-            refs_model.pop(b"refs/tags/t")
             garbage_collect(r, grace_period=None)
         elif step == "repack-excl":
+            # what gc does, reduced to one object: the last commit loses its refs and is left out of the repack
+            del r.refs[last]
+            del r.refs[b"refs/tags/l"]
             st.repack(exclude={h.commits[h.n - 1].id})
         else:
             raise AssertionError(step)
@@ -456,7 +452,7 @@ def _ans(fn):
         return "!" + type(e).__name__
 
 
-def battery(h: Hist, repo, families=None):
+def battery(h: Hist, repo, families=None, extra_ids=()):
     """Run the fixed battery on an open Repo; returns {query-key: canonical answer}.  query-key is
     (family, args...) with short labels (c0, t1, b2, T, X ...) instead of ids, so keys are stable.
     `families`: optional set restricting the battery (used by the damage phase)."""
@@ -479,8 +475,12 @@ def battery(h: Hist, repo, families=None):
     def want(f):
         return families is None or f in families
 
-    # ---- object lookup
-    for oid in h.universe:
+    # ---- object lookup (extra_ids: objects of ANOTHER repository, labelled F0, F1, ... — foreign scenario)
+    if extra_ids:
+        label = dict(label)
+        for k, oid in enumerate(extra_ids):
+            label.setdefault(oid, "F%d" % k)
+    for oid in list(h.universe) + [x for x in extra_ids if x not in h.ids and x != BOGUS]:
         lb = label[oid]
         if want("getitem"):
             def getitem(oid=oid):
@@ -499,7 +499,8 @@ def battery(h: Hist, repo, families=None):
     cl = [label[c] for c in cids]
     if want("parents"):
         pp = _ans(repo.parents_provider)
-        for c, lb in zip(cids, cl):
+        ex = [x for x in extra_ids if x not in h.ids and x != BOGUS]
+        for c, lb in zip(cids + ex, cl + [label[x] for x in ex]):
             if isinstance(pp, str):
                 out[("parents", lb)] = pp
             else:
@@ -623,3 +624,489 @@ def _labels(h: Hist):
             raise HarnessError("unlabelled object in universe")
     _LMEMO[0], _LMEMO[1] = h, lb
     return lb
+
+
+# --------------------------------------------------------------------------- comparing two answers
+
+REJECT_IS_ANSWER = {"KeyError"}  # "not there" is an answer of a lookup, not a rejection of the file
+
+
+def _is_exc(v):
+    return isinstance(v, str) and v.startswith("!")
+
+
+def predicate(ref, got):
+    """How `got` (accelerated) differs from `ref` (plain) — a stable, input-independent phrase."""
+    if _is_exc(got):
+        return "raises-%s" % got[1:]
+    if _is_exc(ref):
+        return "answer-vs-%s" % ref[1:]
+    if isinstance(ref, bool) or isinstance(got, bool) or ref is None or got is None:
+        return "%s-vs-%s" % (_kind(got), _kind(ref))
+    if isinstance(ref, str) and isinstance(got, str):  # one object label (peeled value, ref value, head)
+        return "%s-vs-%s" % (_kind(got), _kind(ref))
+    if isinstance(ref, int) and isinstance(got, int):
+        return "larger" if got > ref else "smaller"
+    if isinstance(ref, tuple) and isinstance(got, tuple):
+        if len(ref) == 2 and ref and isinstance(ref[0], tuple) and ref[0] and isinstance(ref[0][0], bytes):
+            pass
+        try:
+            sr, sg = set(ref), set(got)
+        except TypeError:
+            return "other-value"
+        if sr == sg:
+            return "other-order" if len(ref) == len(got) else "other-multiplicity"
+        if sg > sr:
+            return "superset"
+        if sg < sr:
+            return "subset"
+        return "other-set"
+    return "other-value"
+
+
+def _kind(v):
+    """Object label -> its kind (keys must not contain concrete node numbers)."""
+    if isinstance(v, str):
+        if v in ("T", "T2"):
+            return "tag"
+        if v == "X" or (v[0] == "c" and v[1:].isdigit()):
+            return "commit"
+        if v.startswith("?"):
+            return "unknown-id"
+        return "object"
+    return str(v)
+
+
+def diff(ref, got):
+    """{query: (ref answer, got answer)} for the queries whose answers differ.
+
+    refs.get_peeled() is the cache-level API whose contract allows None = "not known": a None is
+    never a deviation, a value is compared with the reference run's *repo-level* get_peeled()."""
+    if set(ref) != set(got):
+        raise HarnessError("batteries asked different questions")
+    out = {}
+    for q in ref:
+        r, g = ref[q], got[q]
+        if q[0] == "refs.get_peeled":
+            if g is None:
+                continue
+            r = ref[("get_peeled",) + q[1:]]
+        if r != g:
+            out[q] = (r, g)
+    return out
+
+
+def _short(v, n=160):
+    s = repr(v)
+    return s if len(s) <= n else s[: n - 3] + "..."
+
+
+def _key(k):
+    """Violation keys must survive the runner's 80-character file-name slug unambiguously."""
+    if len(k) > 80:
+        raise HarnessError("violation key too long: %r" % k)
+    return k
+
+
+STEP_CLASS = {
+    None: "fresh",
+    "commit": "stale-grow", "pack": "stale-grow",
+    "repack": "stale-relayout", "pack-loose": "stale-relayout", "gc": "stale-relayout",
+    "delref": "stale-refs", "moveref": "stale-refs", "retag": "stale-refs",
+    "delref+gc": "stale-shrink", "moveref+gc": "stale-shrink", "deltag+gc": "stale-shrink", "repack-excl": "stale-shrink",
+}
+
+
+# --------------------------------------------------------------------------- reference model of a history state
+
+
+def model_state(h: Hist, step):
+    """(refs dict, set of labels of the objects that must be in the store) after `step`, computed
+    from the explicit DAG only (no dulwich traversal code)."""
+    label = _labels(h)
+    refs = initial_refs(h)
+    last = b"refs/heads/b%d" % (h.n - 1)
+    objs = set(h.objs)
+    x_objs = {h.x.id, h.xtree.id, h.xblob.id}
+    gc = False
+    if step in ("commit", "pack"):
+        refs[last] = h.x.id
+        objs |= x_objs
+    elif step in ("delref", "delref+gc"):
+        refs.pop(last)
+        refs.pop(b"refs/tags/l")
+        gc = step.endswith("+gc")
+    elif step in ("moveref", "moveref+gc"):
+        refs.pop(b"refs/tags/l")
+        tgt = _moveref_target(h)
+        if tgt is None:
+            refs.pop(last)
+        else:
+            refs[last] = tgt
+        gc = step.endswith("+gc")
+    elif step == "retag":
+        refs[b"refs/tags/t"] = h.tag2.id
+        objs.add(h.tag2.id)
+    elif step == "deltag+gc":
+        refs.pop(b"refs/tags/t")
+        gc = True
+    elif step == "gc":
+        gc = True
+    elif step == "repack-excl":
+        refs.pop(last)
+        refs.pop(b"refs/tags/l")
+        objs.discard(h.commits[h.n - 1].id)
+    if gc:
+        node = {c.id: i for i, c in enumerate(h.commits)}
+        keep = set()
+        m = 0
+        for v in refs.values():
+            if v == h.tag.id:
+                keep.add(h.tag.id)
+                m |= h.anc[0]
+            elif v in node:
+                m |= h.anc[node[v]]
+        for i in E.bits(m):
+            keep.add(h.commits[i].id)
+            keep.add(h.trees[i].id)
+            if h.subs[i] is not None:
+                keep.add(h.subs[i].id)
+            keep.add(h.common.id)
+            for j in E.bits(h.anc[i]):
+                keep.add(h.blobs[j].id)
+        objs = keep
+    head = refs.get(HEAD_TARGET(h))
+    return refs, head, tuple(sorted(label[o] for o in objs))
+
+
+def validate_reference(h: Hist, step, R):
+    """The plain run must agree with the trivial model; otherwise the machinery (or a part of
+    dulwich that is not C14's business) is broken and nothing can be concluded."""
+    label = _labels(h)
+    refs, head, objs = model_state(h, step)
+    want = dict((k, label[v]) for k, v in refs.items())
+    if head is not None:
+        want[b"HEAD"] = label[head]
+    got = R[("refs.as_dict",)]
+    if got != tuple(sorted(want.items())):
+        raise HarnessError("reference run: refs %r, model %r (%s, step %s)" % (got, sorted(want.items()), h.name, step))
+    if R[("iter",)] != objs:
+        raise HarnessError("reference run: objects %r, model %r (%s, step %s)" % (R[("iter",)], objs, h.name, step))
+    present = set(objs)
+    for i, ps in enumerate(h.dag):
+        a = R[("parents", "c%d" % i)]
+        exp = tuple("c%d" % p for p in ps) if "c%d" % i in present else "!KeyError"
+        if a != exp:
+            raise HarnessError("reference run: parents(c%d)=%r, model %r (%s, step %s)" % (i, a, exp, h.name, step))
+    for lb in ("T", "X", "Z", "c0"):
+        if (R[("contains", lb)] is True) != (lb in present):
+            raise HarnessError("reference run: contains(%s)=%r (%s, step %s)" % (lb, R[("contains", lb)], h.name, step))
+
+
+# --------------------------------------------------------------------------- one configuration
+
+WRITE_ORDER = ("bitmap", "midx", "cg", "prefs")
+
+
+def cfg_name(config):
+    return "+".join("%s[%s]" % av for av in config) or "none"
+
+
+def norm_cfg(config):
+    config = [tuple(x) for x in config]
+    return tuple(sorted(config, key=lambda av: ACCELS.index(av[0])))
+
+
+def write_config(path, config, repo=None):
+    """Write all accelerators of `config`; returns the tuple of those that produced nothing
+    (e.g. a multi-pack-index in a repository without packs)."""
+    empty = []
+    for a in WRITE_ORDER:
+        for (aa, v) in config:
+            if aa == a:
+                live = repo if not v.startswith("g") else None
+                if not write_accel(path, aa, v, live):
+                    empty.append((aa, v))
+    return tuple(empty)
+
+
+class _Pin:
+    """Keep the inode of packed-refs alive while another Repo object replaces the file, so that a
+    recycled inode number (tmpfs) cannot make a stale stat key look current (DESIGN 1.3 rule 1)."""
+
+    def __init__(self, path):
+        self.fds = []
+        p = os.path.join(path, "packed-refs")
+        if os.path.exists(p):
+            self.fds.append(os.open(p, os.O_RDONLY))
+
+    def close(self):
+        for fd in self.fds:
+            os.close(fd)
+        self.fds = []
+
+
+def _layout_key(layout):
+    return {"pack1-v1": "idx-v1", "pack1-v3": "idx-v3"}.get(layout, "layout-" + layout)
+
+
+PRIMITIVE = ("getitem", "contains", "get_raw", "iter", "parents", "refs.as_dict", "refs.keys", "refs.get",
+             "refs.contains", "refs.read_ref")
+_GRAPH_DEPS = ("parents", "getitem", "contains")
+DEPENDS = {
+    "can_ff": _GRAPH_DEPS, "merge_base": _GRAPH_DEPS, "walk": _GRAPH_DEPS, "walk+excl": _GRAPH_DEPS,
+    "find_shallow": _GRAPH_DEPS, "get_depth": _GRAPH_DEPS, "graph_walker": _GRAPH_DEPS + ("refs.as_dict",),
+    "reach_commits": _GRAPH_DEPS, "reach_commits+excl": _GRAPH_DEPS, "reach_objects": _GRAPH_DEPS,
+    "reach_objects+excl": _GRAPH_DEPS, "mof": _GRAPH_DEPS,
+    "get_peeled": ("refs.get", "refs.as_dict", "getitem", "refs.get_peeled"),
+    "refs.get_peeled": ("refs.get", "refs.as_dict", "getitem"),
+    "head": ("refs.get", "refs.as_dict"),
+}
+# masked only when the sibling family deviates with the *same* predicate in the same run
+SIBLING = {"reach_commits+excl": ("reach_commits",), "reach_objects+excl": ("reach_objects", "reach_commits"),
+           "reach_objects": ("reach_commits",), "mof": ("reach_commits",), "walk+excl": ("walk",),
+           "get_raw": ("getitem",)}
+
+
+def judge(acc: Acc, h: Hist, layout, config, step, mode, A, ref, explain, replay, ref_kind="plain", fresh_seen=None):
+    """Compare the accelerated answers A with the reference answers.
+
+    explain     list of (name, answers) of runs with fewer accelerators (none; each single member):
+                a deviation that such a run shows identically is theirs, not this configuration's.
+    fresh_seen  set of (family, predicate) this configuration already showed with *fresh* accelerators;
+                the same class is not reported again for its stale scenarios.
+    A deviation of a derived query family is not reported when a primitive family it is computed
+    from (lookup, membership, parents, ref values) deviates in the same run: one root cause, one key
+    (the masked classes are still counted as outcomes)."""
+    d = diff(ref, A)
+    scen = STEP_CLASS[step] + ("+live" if mode == "live" else "")
+    acc.count("configurations")
+    acc.count("queries", len(A))
+    cname = cfg_name(config)
+    cls = _accel_class(config)
+    if not d:
+        acc.outcome("%s:%s:same" % (cls, scen))
+        return d
+    if not config:
+        who = _layout_key(layout)
+    elif len(config) == 1:
+        who = cname
+    else:
+        who = "combo(%s)" % "+".join(a for a, _ in config) + "[%s]" % ",".join(sorted({v[0] for _, v in config}))
+    left = {}
+    for q, (r, g) in d.items():
+        why = [nm for nm, other in explain if other.get(q, r) == g]
+        if why:
+            acc.outcome("%s:%s:deviation-explained-by:%s" % (cls, scen, why[0]))
+        else:
+            left[q] = (r, g)
+    dev_fams = {q[0] for q in d}  # (explained deviations of primitives mask derived families too)
+    dev_preds = {(q[0], predicate(r, g)) for q, (r, g) in d.items()}
+    seen = set()
+    for q, (r, g) in sorted(left.items(), key=lambda kv: repr(kv[0])):
+        fam = q[0]
+        pred = predicate(r, g)
+        masked = [p for p in DEPENDS.get(fam, ()) if p in dev_fams] + [p for p in SIBLING.get(fam, ()) if (p, pred) in dev_preds]
+        if masked:
+            acc.outcome("%s:%s:%s:%s:masked-by-primitive:%s" % (who, scen, fam, pred, masked[0]))
+            continue
+        w = who
+        if not config and "gc" in (step or "") and (fam.startswith("refs") or fam in ("get_peeled", "head")):
+            w = "prefs[by-gc]"  # the step itself packed the refs
+        if step is not None and fresh_seen is not None and (fam, pred) in fresh_seen:
+            acc.outcome("%s:%s:%s:%s:already-with-fresh-accelerator" % (w, scen, fam, pred))
+            continue
+        if step is None and fresh_seen is not None:
+            fresh_seen.add((fam, pred))
+        key = _key("%s:%s:%s:%s" % (w, scen, fam, pred))
+        acc.outcome(key)
+        acc.count("violating_queries")
+        if key in seen:
+            continue
+        seen.add(key)
+        acc.violation(key, "%s | layout=%s accel=%s step=%s mode=%s | %s%r: with accelerators %s, without (%s) %s"
+                      % (h.name, layout, cname, step, mode, fam, q[1:], _short(g), ref_kind, _short(r)), replay)
+    return d
+
+
+def _accel_class(config):
+    if not config:
+        return "none"
+    return "+".join(a for a, _ in config)
+
+
+def run_fresh(h: Hist, path, step):
+    """Apply `step` (if any) to the repository at `path` and answer the battery with a fresh Repo."""
+    if step is not None:
+        apply_step(h, step, path)
+    r = _open(path)
+    try:
+        return battery(h, r)
+    finally:
+        r.close()
+
+
+def run_live(h: Hist, path, config, step):
+    """A long-lived Repo object: opened first, accelerators written through it (C git variants:
+    behind its back), battery answered once (warms every cache); then another Repo object performs
+    `step`; the long-lived object answers again.  Returns (answers after writing, answers after
+    step or None, accelerators that produced nothing)."""
+    r = _open(path)
+    pin = None
+    try:
+        empty = write_config(path, config, r)
+        a1 = battery(h, r)
+        a2 = None
+        if step is not None:
+            pin = _Pin(path)
+            apply_step(h, step, path)
+            a2 = battery(h, r)
+        return a1, a2, empty
+    finally:
+        if pin:
+            pin.close()
+        r.close()
+
+
+_SNAP = {}
+
+
+def _base_snapshot(h: Hist, layout, work):
+    """Snapshot of the repository of `h` in `layout` (no accelerators), memoised per history."""
+    k = (h.dag, layout)
+    if _SNAP.get("h") is not h:
+        _SNAP.clear()
+        _SNAP["h"] = h
+    if k not in _SNAP:
+        p = os.path.join(work, "base-" + layout)
+        if os.path.exists(p):
+            shutil.rmtree(p)
+        build_layout(h, layout, p)
+        _SNAP[k] = SS.snapshot(p)
+        shutil.rmtree(p)
+    return _SNAP[k]
+
+
+def _purify_refs(h: Hist, step, path):
+    """Steps that contain gc write packed-refs themselves.  The reference run must be free of every
+    accelerator: check the refs against the model, then store them as plain loose files."""
+    refs, _head, _objs = model_state(h, step)
+    r = _open(path)
+    try:
+        got = r.refs.as_dict()
+    finally:
+        r.close()
+    got.pop(b"HEAD", None)
+    if got != refs:
+        raise HarnessError("reference run: refs %r, model %r (%s, step %s)" % (sorted(got.items()), sorted(refs.items()), h.name, step))
+    pr = os.path.join(path, "packed-refs")
+    if os.path.exists(pr):
+        os.unlink(pr)
+    for sub in ("heads", "tags"):
+        d = os.path.join(path, "refs", sub)
+        if os.path.isdir(d):
+            shutil.rmtree(d)
+        os.makedirs(d)
+    for name, val in refs.items():
+        with open(os.path.join(path, name.decode()), "wb") as f:
+            f.write(val + b"\n")
+
+
+def _reference(h: Hist, step, work, cache):
+    if step not in cache:
+        p = os.path.join(work, "ref")
+        SS.restore(_base_snapshot(h, "loose", work), p)
+        if step is not None:
+            apply_step(h, step, p)
+            _purify_refs(h, step, p)
+        if accel_files(p) or os.path.exists(os.path.join(p, "packed-refs")):
+            raise HarnessError("reference repository is not accelerator-free")
+        R = run_fresh(h, p, None)
+        validate_reference(h, step, R)
+        cache[step] = R
+    return cache[step]
+
+
+def _fresh_answers(h, layout, config, step, work, snap_cache):
+    """Answers of a fresh Repo for (layout, config, step); the state after writing the accelerators
+    is snapshotted once per (layout, config)."""
+    k = (layout, config)
+    p = os.path.join(work, "run")
+    if k not in snap_cache:
+        SS.restore(_base_snapshot(h, layout, work), p)
+        empty = write_config(p, config)
+        snap_cache[k] = (SS.snapshot(p), empty)
+        if step is None:
+            return run_fresh(h, p, None), empty
+    snap, empty = snap_cache[k]
+    SS.restore(snap, p)
+    return run_fresh(h, p, step), empty
+
+
+def case_config(acc: Acc, dag, layout, config, step, mode):
+    """ONE configuration, stand-alone (replay entry point): reference run, the runs with no and with
+    each single accelerator (to attribute deviations of combinations), the accelerated run, verdict."""
+    h = history(dag)
+    config = norm_cfg(config)
+    work = fresh_dir("c14case")
+    try:
+        _eval_configs(acc, h, layout, [config], [step], mode, work, {}, standalone=True)
+    finally:
+        rmtree(work)
+
+
+def _eval_configs(acc, h, layout, configs, steps, mode, work, refcache, standalone=False):
+    """Evaluate `configs` x `steps` on one layout.  Singles / the empty configuration needed to
+    explain combinations are evaluated on demand and memoised in this call."""
+    memo = {}
+    snap_cache = {}
+
+    def answers(config, step):
+        k = (config, step)
+        if k not in memo:
+            if mode == "fresh":
+                memo[k] = _fresh_answers(h, layout, config, step, work, snap_cache)
+            else:
+                p = os.path.join(work, "live")
+                SS.restore(_base_snapshot(h, layout, work), p)
+                a1, a2, empty = run_live(h, p, config, step)
+                memo[k] = (a1 if step is None else a2, empty)
+        return memo[k]
+
+    for config in configs:
+        fresh_seen = set()
+        steps_ = list(steps)
+        if any(st is not None for st in steps_) and None not in steps_:
+            steps_ = [None] + steps_  # (stand-alone replay of a stale scenario: same suppression as in the batch)
+        steps_.sort(key=lambda st: st is not None)
+        for step in steps_:
+            R = _reference(h, step, work, refcache)
+            A, empty = answers(config, step)
+            if empty and step is None:
+                acc.outcome("writer-produced-nothing:%s:%s" % (cfg_name(empty), "loose" if layout == "loose" else "packed"))
+            explain = []
+            ref, ref_kind = R, "plain: loose objects, loose refs, fresh Repo"
+            if config:
+                A0, _ = answers((), step)
+                if mode == "live":
+                    # a long-lived object without accelerators is the baseline of the live mode; its own
+                    # deviations from a fresh object are C10's business (readers vs repacks), not C14's
+                    if A0 != R:
+                        for q in diff(R, A0):
+                            acc.outcome("live-baseline-differs-from-fresh:%s:%s" % (STEP_CLASS[step], q[0]))
+                    ref, ref_kind = A0, "same long-lived Repo scenario without accelerators"
+                else:
+                    explain.append((_layout_key(layout), A0))
+                if len(config) > 1:
+                    for av in config:
+                        explain.append((cfg_name((av,)), answers((av,), step)[0]))
+            elif mode == "live":
+                d0 = diff(R, A)
+                for q in d0:
+                    acc.outcome("live-baseline-differs-from-fresh:%s:%s" % (STEP_CLASS[step], q[0]))
+                acc.count("configurations")
+                acc.count("queries", len(A))
+                continue
+            sink = acc if step in steps else Acc()  # the extra fresh run of a replay only feeds fresh_seen
+            judge(sink, h, layout, config, step, mode, A, ref, explain,
+                  rp(case_config, h.dag, layout, config, step, mode), ref_kind, fresh_seen)
